@@ -128,10 +128,10 @@ impl<A, B> Drop for ArcUnion<A, B> {
     fn drop(&mut self) {
         match self.borrow() {
             ArcUnionBorrow::First(x) => unsafe {
-                let _ = Arc::from_raw(&*x);
+                let _ = Arc::from_raw(x.0.as_ptr());
             },
             ArcUnionBorrow::Second(x) => unsafe {
-                let _ = Arc::from_raw(&*x);
+                let _ = Arc::from_raw(x.0.as_ptr());
             },
         }
     }
